@@ -75,12 +75,22 @@ static void* worker(void* arg)
     return NULL;
 }
 
+static int with_tests_mode;
 static void* tester(void* arg)
 {
     struct tstate* t = arg;
     pthread_barrier_wait(&bar);
     char name[16]; snprintf(name, sizeof name, "t%d", t->id);
-    for (int r = 0; r < rounds; r++) { gp_test(name); gp_expect(1); gp_test(NULL); }
+    for (int r = 0; r < rounds; r++) {
+        gp_test(name);
+        if (with_tests_mode == 2 && r % 3 == 0) {
+            /* a failing expectation with a formatted argument: the text this thread asked for must reach the report intact */
+            char marker[256]; int n = snprintf(marker, sizeof marker, "<<t%d:r%d:", t->id, r);
+            int m = 10 + (t->id * 7 + r) % 150; memset(marker + n, 'm', m); strcpy(marker + n + m, ">>");
+            gp_expect(r < 0, "%s", marker);
+        } else gp_expect(1);
+        gp_test(NULL);
+    }
     gp_suite(NULL);
     return NULL;
 }
@@ -88,7 +98,8 @@ static void* tester(void* arg)
 int main(int argc, char** argv)
 {
     int nt = argc > 1 ? atoi(argv[1]) : 4; rounds = argc > 2 ? atoi(argv[2]) : 100; seed0 = argc > 3 ? (unsigned)atoi(argv[3]) : 1;
-    int with_tests = argc > 4 ? atoi(argv[4]) : 0;
+    int with_tests = argc > 4 ? atoi(argv[4]) : 0;      /* 1: passing tests in the odd threads, 2: every third test fails */
+    with_tests_mode = with_tests;
     if (argc > 5) mode = atoi(argv[5]);
     if (nt > MAXT) nt = MAXT;
     shared = gp_arena_new_shared(1024);
